@@ -302,7 +302,7 @@ func VerifC01AdoptAnnotation() { verifC01Adopt(vStrategyAnnotation) }
 func verifC01Adopt(strategyKind int) {
 	s := vNewAdoptionScenario(strategyKind)
 	w := &vWriter{}
-	cache := &vCache{vReader{Objs: map[client.ObjectKey]*unstructured.Unstructured{}}}
+	cache := &vCache{vReader: vReader{Objs: map[client.ObjectKey]*unstructured.Unstructured{}}}
 	uncached := &vReader{Objs: map[client.ObjectKey]*unstructured.Unstructured{}}
 	// the object exists; the cache may or may not have it yet
 	if verifrt.Bool("inCache") {
